@@ -31,12 +31,17 @@ func langDoc(t *rapid.T) []xmodel.Event {
 		if depth == 1 {
 			ev = append(ev, xmodel.Event{K: "N", Local: "xml", Value: xmodel.XMLNS})
 		}
-		switch rapid.IntRange(0, 3).Draw(t, "langAttr") {
+		switch rapid.IntRange(0, 4).Draw(t, "langAttr") {
 		case 0, 1:
 			ev = append(ev, xmodel.Event{K: "A", Space: xmodel.XMLNS, Local: "lang", Prefix: "xml", Value: langTags[rapid.IntRange(0, len(langTags)-1).Draw(t, "tag")]})
 		case 2:
 			// a 'lang' attribute in no namespace must be ignored
 			ev = append(ev, xmodel.Event{K: "A", Local: "lang", Value: "en"})
+		case 3:
+			// decoys with the same local name on both sides of the real one
+			ev = append(ev, xmodel.Event{K: "A", Local: "lang", Value: "en"})
+			ev = append(ev, xmodel.Event{K: "A", Space: xmodel.XMLNS, Local: "lang", Prefix: "xml", Value: langTags[rapid.IntRange(0, len(langTags)-1).Draw(t, "tag")]})
+			ev = append(ev, xmodel.Event{K: "A", Space: "urn:other", Local: "lang", Prefix: "o", Value: "de"})
 		}
 		if rapid.Bool().Draw(t, "idAttr") {
 			ev = append(ev, xmodel.Event{K: "A", Local: "id", Value: "1"})
